@@ -15,6 +15,9 @@
 3. the histogram re-binning call -> `Gen.infHistCall`: what is handed to `np.histogram` (data, bins, density) and which
    component of its result is kept.
 
+4. the `self.init_mapped_dim(<prop>, …)` statements of `__init__` -> `Gen.infInitCalls`: the order in which the
+   properties are initialised and the kind of default style values each gets.
+
 Anything not understood raises NotFound / Untranslatable and the anchor falls back to `Gen.Default.<name>`.
 """
 import ast
@@ -491,10 +494,44 @@ def a_infHistCall(T):
     return f'{{ data := {d}, density := {dn}, kept := {kept} }}'
 
 
+# ===================================================================================== 4. the calls in __init__
+def a_infInitCalls(T):
+    """the `self.init_mapped_dim("<prop>", …)` statements of `__init__`, in order, with the kind of default style values:
+    `itertools.cycle(<TABLE>)`, `lambda N: np.linspace(a, b, N)` with integral constants, none, or something else"""
+    f = _find(T['infiniplot'], ['Infiniplotter', '__init__'])
+    allcalls = [n for n in ast.walk(f) if isinstance(n, ast.Call) and _u(n.func) == 'self.init_mapped_dim']
+    top = [s.value for s in f.body if isinstance(s, ast.Expr) and isinstance(s.value, ast.Call)
+           and _u(s.value.func) == 'self.init_mapped_dim']
+    if not top or len(top) != len(allcalls):
+        raise Untranslatable('init_mapped_dim is called conditionally / in a loop')
+    out = []
+    for c in top:
+        if len(c.args) != 1 or not (isinstance(c.args[0], ast.Constant) and isinstance(c.args[0].value, str)):
+            raise Untranslatable('init_mapped_dim call: ' + _u(c)[:60])
+        kw = {k.arg: k.value for k in c.keywords}
+        if set(kw) - {'custom_values', 'default_values'}: raise Untranslatable('init_mapped_dim keywords')
+        d = kw.get('default_values')
+        if d is None or (isinstance(d, ast.Constant) and d.value is None):
+            k = '.none'
+        elif isinstance(d, ast.Call) and _u(d.func) == 'itertools.cycle' and len(d.args) == 1 and isinstance(d.args[0], ast.Name):
+            k = f'.cycle {lean_str(d.args[0].id)}'
+        elif isinstance(d, ast.Lambda) and len(d.args.args) == 1 and isinstance(d.body, ast.Call) \
+                and _u(d.body.func) in ('np.linspace', 'numpy.linspace') and len(d.body.args) == 3 and not d.body.keywords \
+                and _u(d.body.args[2]) == d.args.args[0].arg \
+                and all(isinstance(x, ast.Constant) and isinstance(x.value, (int, float)) and not isinstance(x.value, bool)
+                        and float(x.value) == int(x.value) and x.value >= 0 for x in d.body.args[:2]):
+            k = f'.linspace {int(d.body.args[0].value)} {int(d.body.args[1].value)}'
+        else:
+            k = '.other'
+        out.append(f'({lean_str(c.args[0].value)}, {k})')
+    return '[' + ', '.join(out) + ']'
+
+
 ANCHORS = [
     ('infInitMapped', '{S : Type} (o : MapOps S) (st : S) : Except PyErr S', a_infInitMapped),
     ('infIter', '(ranges : List (List Nat)) : List (List Nat)', a_infIter),
     ('infRanges', '(sizes : List Nat) : List (List Nat)', a_infRanges),
     ('infLineIdx', '(remDims : List String) (attr : String → Option String) (iloc : List Nat) : LineIdx', a_infLineIdx),
     ('infHistCall', ': HistCall', a_infHistCall),
+    ('infInitCalls', ': List (String × StyleDefault)', a_infInitCalls),
 ]
